@@ -45,7 +45,7 @@ def _worker(task):
     from pyvc import cex
     c = REG.contracts[key][idx]
     out = {"rel": c.rel, "qual": c.qual, "obligations": [], "error": None, "canary": None, "paths": 0,
-           "outcomes": {}, "fingerprint": None, "note": c.note}
+           "outcomes": {}, "fingerprint": None, "note": c.note, "called": [], "prop": c.prop}
     try:
         repo = Repo(root)
         try:
@@ -59,6 +59,7 @@ def _worker(task):
         results = verify_contract(repo, REG, c)
         for res in results:
             out["paths"] += res.paths
+            out["called"] = sorted(set(out["called"]) | set(getattr(res, "called", set())))
             out["fingerprint"] = res.fingerprint
             for k, v in res.outcomes.items():
                 out["outcomes"][k] = out["outcomes"].get(k, 0) + v
@@ -137,12 +138,31 @@ def run_prover(root, prop, tier, jobs):
     tasks = [(root, prop, key, idx, tier) for key, idx in todo]
     if not tasks:
         raise SystemExit("no verified contracts for %s" % prop)
-    if jobs <= 1 or len(tasks) == 1:
-        results = [_worker(t) for t in tasks]
-    else:
+    def run_tasks(ts):
+        if jobs <= 1 or len(ts) == 1:
+            return [_worker(t) for t in ts]
         ctx = mp.get_context("fork")
-        with ctx.Pool(min(jobs, len(tasks))) as pool:
-            results = pool.map(_worker, tasks, chunksize=1)
+        with ctx.Pool(min(jobs, len(ts))) as pool:
+            return pool.map(_worker, ts, chunksize=1)
+    results = run_tasks(tasks)
+    # dependencies: contracts of callees used modularly are verified in the same run (transitively), so that a
+    # change inside a callee that breaks the contract this property relies on is reported by this check too
+    done = set((k, i) for (_r, _p, k, i, _t) in tasks)
+    for _round in range(6):
+        need = []
+        for r in results:
+            for key in r.get("called", []):
+                key = tuple(key)
+                for i, c in enumerate(REG.contracts.get(key, [])):
+                    if c.verify and (key, i) not in done:
+                        done.add((key, i))
+                        need.append((root, prop, key, i, tier))
+        if not need:
+            break
+        more = run_tasks(need)
+        for r in more:
+            r["dependency"] = True
+        results.extend(more)
     if any(p == prop for (p, _n, _pc, _g) in REG.lemmas):
         results.append(_lemma_worker((root, prop, None, None, tier)))
     return REG, results
